@@ -661,7 +661,7 @@ func checkC18(r *Run) {
 	type mk = func() *descgen.Entry
 	var files []mk
 	// descriptors without temporal fields, so that an inserted one is the only unmappable field
-	files = append(files, descgen.K5, func() *descgen.Entry { return descgen.K10(false) }, descgen.K8, descgen.K2)
+	files = append(files, descgen.K18, descgen.K5, func() *descgen.Entry { return descgen.K10(false) }, descgen.K8, descgen.K2)
 	nr := r.pick(2, 36)
 	for i := 0; i < nr; i++ {
 		i := i
@@ -673,8 +673,12 @@ func checkC18(r *Run) {
 	var all, compiled []*pipeline.Case
 	type fcase struct {
 		base, faulted, repaired *pipeline.Case
-		msg, kind               string
-		hit, spared             []string
+		// partial: the offending field is excluded by its full paths below ONE of the affected
+		// types only: that type must come back whole, the other affected types stay skipped
+		partial     *pipeline.Case
+		partialRoot string
+		msg, kind   string
+		hit, spared []string
 	}
 	var fcs []fcase
 	for fi, m := range files {
@@ -712,7 +716,7 @@ func checkC18(r *Run) {
 				if !r.thorough() && (pi+ki+fi)%2 == 1 && pi > 0 {
 					continue
 				}
-				build := func(excl bool, name string) *pipeline.Case {
+				build := func(excl bool, name string, exclPathsOf ...string) *pipeline.Case {
 					e := m()
 					strip(e)
 					msg := e.File.Msg(pos, false)
@@ -730,6 +734,14 @@ func checkC18(r *Run) {
 					if excl {
 						e.Cfg.ExcludeFields = append(e.Cfg.ExcludeFields, pos+".ZzUnmappable")
 					}
+					for _, root := range exclPathsOf {
+						for _, o := range descgen.Occurrences(e.File, []string{root}) {
+							if o.Field.Name == "ZzUnmappable" {
+								e.Cfg.ExcludeFields = append(e.Cfg.ExcludeFields, o.Path)
+							}
+						}
+					}
+					exclPathsOf = nil
 					c := caseFrom(descgen.Rename(e, name))
 					return c
 				}
@@ -749,6 +761,20 @@ func checkC18(r *Run) {
 					} else {
 						fc.spared = append(fc.spared, t)
 					}
+				}
+				// (a root that is the faulted message itself is no candidate: its full path equals the
+				// Message.Field key, which addresses every occurrence)
+				var cand []string
+				for _, t := range fc.hit {
+					if t != pos {
+						cand = append(cand, t)
+					}
+				}
+				if len(fc.hit) >= 2 && len(cand) > 0 {
+					fc.partialRoot = cand[(pi+ki)%len(cand)]
+					fc.partial = build(false, fmt.Sprintf("%sy%d_%d", be.Name, pi, ki), fc.partialRoot)
+					fc.partial.NoWrite = true
+					all = append(all, fc.partial)
 				}
 				fcs = append(fcs, fc)
 				all = append(all, faulted, repaired)
@@ -801,6 +827,29 @@ func checkC18(r *Run) {
 				r.Counters["spared-function-texts-compared"]++
 				if got[t][fn] != text {
 					r.violate("other-type-affected/"+fc.kind, f.Name, t, id, fmt.Sprintf("%s of the unaffected type %s changed or vanished", fn, t), nil)
+				}
+			}
+		}
+		// excluding the field by its full paths below one affected type restores exactly that type
+		if y := fc.partial; y != nil {
+			r.Counters["partial-exclusions"]++
+			if y.Plugin.Exit != 0 || y.Resp == nil || y.Resp.Error != nil {
+				r.violate("partial-exclusion-run-failed/"+fc.kind, y.Name, fc.partialRoot, id, "plugin failed: "+y.GenErr, nil)
+			} else {
+				yf := generatedFuncs(y)
+				for _, t := range fc.hit {
+					switch {
+					case t == fc.partialRoot && len(yf[t]) != 3:
+						r.violate("path-exclusion-does-not-restore/"+fc.kind, y.Name, t, id, fmt.Sprintf("%d of 3 functions for %s although every path from %s to the offending field is excluded (%v)", len(yf[t]), t, t, y.Cfg.ExcludeFields),
+							map[string]interface{}{"stderr": tail(string(y.Plugin.Stderr), 10)})
+					case t != fc.partialRoot && len(yf[t]) != 0:
+						r.violate("partial-type-emitted/"+fc.kind, y.Name, t, id, fmt.Sprintf("%d functions for %s, whose path to the unmappable field is not excluded", len(yf[t]), t), nil)
+					}
+				}
+				for fn, text := range baseFns[fc.partialRoot] {
+					if yf[fc.partialRoot][fn] != "" && yf[fc.partialRoot][fn] != text {
+						r.violate("exclusion-not-surgical/"+fc.kind, y.Name, fc.partialRoot, id, fn+" differs from the fault-free run", nil)
+					}
 				}
 			}
 		}
